@@ -348,7 +348,15 @@ class Session:
     def check(self) -> None:
         c = self.chart
         eq = (c == self.twin) and (self.twin == c) and not (c != self.twin)
-        o = observation(c)
+        try:
+            o = observation(c)
+        except Exception as e:  # noqa: BLE001
+            # the same walk over the public attributes succeeded right after parsing: if it fails now, a
+            # read-only operation has changed what the chart is made of
+            self.ctx.fail("observation-changed",
+                          f"after {self.ops[-1] if self.ops else 'parsing'}: the chart's public data can no longer "
+                          f"be read the way it was read after parsing: {type(e).__name__}: {e}", self.rc())
+            return
         if o != self.obs0:
             d = diff_paths(self.obs0, o)
             sig = None
